@@ -31,6 +31,11 @@ import (
 
 //go:norace
 func (c *Conn) newToWriteBuf(buf []byte) {
+	// An empty buffer must not be pushed to writeList, flush would never
+	// pop it and loop forever.
+	if len(buf) == 0 {
+		return
+	}
 	c.left += len(buf)
 
 	allocator := c.p.g.BodyAllocator
